@@ -154,44 +154,11 @@ def r16b(run, C):
                   message=f"register(): {why}",
                   necessity="a later registration with priority 0 is inserted at the front and stays ahead of an "
                             "earlier registration with a higher priority: the lower priority converter wins", node=f.node)
-    elif ins:
-        # idiom B: insertion index found by scanning: before the first entry whose priority is <= the new one,
-        # and *at the end* when there is none
-        for n, c in ins:
-            idx = c.args[0]
-            ok = False
-            why = "the insertion index is not a scan result"
-            if isinstance(idx, ast.Name):
-                defs = fa.rd.defs_of(n, idx.id)
-                has_end = any(d is not fa.cfg.entry and d.kind == "stmt" and isinstance(d.ast, ast.Assign)
-                              and "len(self._registry)" in unparse(d.ast.value) for d in defs)
-                loop_defs = [d for d in defs if d.kind == "branch" and d.is_for]
-                for_else = any(d.stmt.orelse for d in loop_defs)
-                cmp_ok = False
-                for d in loop_defs:
-                    for x in walk_shallow(d.stmt):
-                        if isinstance(x, ast.If) and any(isinstance(b, ast.Break) for b in x.body) \
-                                and isinstance(x.test, ast.Compare) and len(x.test.ops) == 1:
-                            l, op, r = unparse(x.test.left), x.test.ops[0], unparse(x.test.comparators[0])
-                            if r == "priority" and isinstance(op, ast.LtE):
-                                cmp_ok = True
-                            if l == "priority" and isinstance(op, ast.GtE):
-                                cmp_ok = True
-                if not loop_defs:
-                    why = "no scan loop defines the insertion index"
-                elif not cmp_ok:
-                    why = "the scan does not stop at the first entry with priority <= the new one"
-                elif not (has_end or for_else):
-                    why = ("when no existing entry has priority <= the new one the index is not len(registry): the new "
-                           "entry is inserted before the last one instead of appended")
-                else:
-                    ok = True
-            run.check("R16b", f, "scan-insert keeps priority order, newest first among equals, appending when lowest", ok,
-                      construct="scan-insert idiom incomplete", message=f"register(): {why}",
-                      necessity="a registration whose priority is below every existing one lands in front of a higher "
-                                "priority entry: the lower-priority converter wins", node=c)
     else:
-        raise AnalysisError("R16b: TypeRegistry.register uses an insertion idiom the checker does not know")
+        # any other way of placing the entry (a scan, bisect, a helper ...): the order is decided by the registration-effect
+        # table R16h (helper_table.r_register), which interprets register() on registries of every priority mix - no shape
+        # is required here (round 8: the scan-insert shape rule alarmed on a bisect-based placement that keeps the order)
+        run.ob("R16b", f, "placement idiom other than insert-at-front + sort: the order is decided by the R16h table", True)
 
 
 def r16c(run, C):
@@ -219,7 +186,9 @@ def r16c(run, C):
                 for attr in (None, "marker"):
                     self_ = Obj("TypeRegistry", validator=lambda fn: True, _registry=[], _cache={"stale": 1}, _lock=Obj("lock"),
                                 cache=True, name="registry")
-                    ip = Interp(methods=methods, module=reg.module)
+                    from .helper_table import stdlib_globals, inspect_model
+                    ip = Interp(globals_=dict(stdlib_globals(reg.module), inspect=inspect_model()), methods=methods,
+                                module=reg.module)
                     kw = dict(attr=attr, metaclass=meta, allow_subclasses=allow_sub)
                     try:
                         deco = ip.call_function(reg.node, (self_,) + classes, kw)
@@ -276,15 +245,7 @@ def r16c(run, C):
               necessity="matching does not follow the registration's own criteria (exact class, subclass, metaclass, "
                         "attribute): a converter is used for types it was not registered for, or skipped for ones it was")
     run.floor("R16c", "detector evaluations", total, 200)
-    # decorator registers (detector, f, priority)
-    d = registration_writer(run)
-    da = analysis(d)
-    ins = [c for n, c, k in _reg_writes(da) if k in ("insert", "append")]
-    ok = bool(ins) and all(isinstance(c.args[-1], ast.Tuple) and
-                           [unparse(e) for e in c.args[-1].elts][:1] == ["detector"] and
-                           "priority" in [unparse(e) for e in c.args[-1].elts] for c in ins)
-    run.check("R16c", d, "the registered entry carries the detector, the function and the priority", ok,
-              construct="registered entry shape", message="register() does not store (detector, f, priority)")
+    # (the shape of the stored entry - (detector, function, priority) - is decided by the R16h table)
 
 
 def r16d(run, C):
